@@ -123,6 +123,10 @@ func VerifH_PasteEqualsInline() {
 		// schema-bearing macro bodies (real schema library): ENUM rules and object types inside macros
 		menu = []int{tMacro, tPaste, tEnum, tTypeObj, tGetPath, tRespRef}
 	}
+	if verifrt.Bound("MENU") == 4 {
+		// enum-bearing macros pasted several times (real schema library)
+		menu = []int{tMacro, tPaste, tEnum}
+	}
 	if verifrt.Bound("MENU") == 2 {
 		verifLetters = 3 // three macro names: cycles behind a macro that is not on them
 		menu = []int{tMacro, tPaste}
